@@ -50,7 +50,7 @@ def merged_at(r: 'Tree', a: 'Tree', b: 'Tree', k: 'Atom') -> 'Bool':
     return True
 
 
-contract(D + 'deep_merge', props=['C06', 'C08', 'C16', 'C17'], pure=True,
+contract(D + 'deep_merge', props=['C06', 'C08', 'C16', 'C17'], pure=True, gen_depth=3,
          types={'dct': 'Tree', 'merge_dct': 'Tree', 'ret': 'Tree', 'k': 'Atom', 'v': 'Tree'},
          requires=['is_node(dct)', 'is_node(merge_dct)'],
          mutates=['dct'],
@@ -62,7 +62,7 @@ contract(D + 'deep_merge', props=['C06', 'C08', 'C16', 'C17'], pure=True,
              'forall(lambda k: implies((k in _done), merged_at(dct, entry(dct), merge_dct, k)))',
              'forall(lambda k: implies(not (k in _done) and has(entry(dct), k), child(dct, k) == child(entry(dct), k)))']}})
 
-contract('vivarium.core.registry:update_merge', props=['C08'], pure=True,
+contract('vivarium.core.registry:update_merge', props=['C08'], pure=True, gen_depth=4,
          types={'current_value': 'Tree', 'new_value': 'Tree', 'update': 'Tree', 'k': 'Atom', 'new': 'Tree', 'v': 'Tree',
                 'ret': 'Tree'},
          requires=['is_node(current_value)', 'is_node(new_value)'],
@@ -72,3 +72,84 @@ contract('vivarium.core.registry:update_merge', props=['C08'], pure=True,
              'forall(lambda k: has(update, k) == (has(current_value, k) or ((k in _done) and has(new_value, k))))',
              'forall(lambda k: implies(k in _done, merged_at(update, current_value, new_value, k)))',
              'forall(lambda k: implies(not (k in _done) and has(current_value, k), child(update, k) == child(current_value, k)))']}})
+
+
+# ---- deep_merge_multi_update: colliding updates are kept side by side under '_multi_update' ---------------------------
+@ghost(quantified=True)
+def mmerged(r: 'Tree', a: 'Tree', b: 'Tree') -> 'Bool':
+    return is_node(r) and forall(lambda k: mmerged_at(r, a, b, k))
+
+
+@ghost(quantified=True)
+def mmerged_at(r: 'Tree', a: 'Tree', b: 'Tree', k: 'Atom') -> 'Bool':
+    if has(r, k) != (has(a, k) or has(b, k)):
+        return False
+    if has(b, k):
+        if has(a, k) and is_node(child(a, k)) and is_node(child(b, k)):
+            return mmerged(child(r, k), child(a, k), child(b, k))
+        if has(a, k):
+            if is_node(child(a, k)) and has(child(a, k), '_multi_update'):
+                return child(r, k) == tree_put(child(a, k), '_multi_update',
+                                                list_append(child(child(a, k), '_multi_update'), child(b, k)))
+            return child(r, k) == tree_put(EMPTY_NODE, '_multi_update', list2(child(a, k), child(b, k)))
+        return child(r, k) == child(b, k)
+    if has(a, k):
+        return child(r, k) == child(a, k)
+    return True
+
+
+def _mmerged_native(r, a, b):
+    if not isinstance(r, dict):
+        return False
+    for k in set(r) | set(a) | set(b):
+        if (k in r) != (k in a or k in b):
+            return False
+        if k in b:
+            if k in a and isinstance(a[k], dict) and isinstance(b[k], dict):
+                if not _mmerged_native(r[k], a[k], b[k]):
+                    return False
+            elif k in a:
+                if isinstance(a[k], dict) and '_multi_update' in a[k]:
+                    want = dict(a[k]); want['_multi_update'] = list(a[k]['_multi_update']) + [b[k]]
+                else:
+                    want = {'_multi_update': [a[k], b[k]]}
+                if r[k] != want:
+                    return False
+            elif r[k] != b[k]:
+                return False
+        elif k in a and r[k] != a[k]:
+            return False
+    return True
+
+
+mmerged.__wrapped_native__ = _mmerged_native
+
+
+@ghost(quantified=True)
+def mu_wf(t: 'Tree') -> 'Bool':
+    return forall(lambda k: implies(is_node(t) and has(t, k),
+                                    implies(k == '_multi_update', is_list(child(t, k))) and
+                                    implies(is_node(child(t, k)), mu_wf(child(t, k)))))
+
+
+def _mu_wf_native(t):
+    if not isinstance(t, dict):
+        return True
+    return all((k != '_multi_update' or isinstance(v, list)) and _mu_wf_native(v) for k, v in t.items())
+
+
+mu_wf.__wrapped_native__ = _mu_wf_native
+
+contract(D + 'deep_merge_multi_update', props=['C06', 'C01', 'C08'], pure=True, gen_depth=3, atoms=['_multi_update'],
+         types={'dct': 'Tree', 'merge_dct': 'Tree', 'ret': 'Tree', 'k': 'Atom', 'v': 'Tree'},
+         requires=['is_node(dct)', 'is_node(merge_dct)',
+                   # a collected '_multi_update' entry is a list (it is only ever created by this function)
+                   'mu_wf(dct)'],
+         mutates=['dct'],
+         ensures=['mmerged(dct, old(dct), merge_dct)', 'ret == dct'],       # every update of every port survives
+         decreases='tree_rank(dct)',
+         loops={0: {'invariant': [
+             'is_node(dct)',
+             'forall(lambda k: has(dct, k) == (has(entry(dct), k) or ((k in _done) and has(merge_dct, k))))',
+             'forall(lambda k: implies((k in _done), mmerged_at(dct, entry(dct), merge_dct, k)))',
+             'forall(lambda k: implies(not (k in _done) and has(entry(dct), k), child(dct, k) == child(entry(dct), k)))']}})
